@@ -44,6 +44,7 @@ type Oblig struct {
 	Note     string
 	Budget   time.Duration
 	NoRedirect bool // run without the property's redirects (real callees)
+	KeepRedirects []string // if set, only these redirects (by target model name) stay active
 }
 
 // Prop describes how one property is checked.
@@ -665,6 +666,17 @@ func runOblig(base *sym.Engine, prog *sym.Program, p *Prop, o Oblig, worker int,
 	if o.NoRedirect {
 		for k := range e.Redirect {
 			delete(e.Redirect, k)
+		}
+	}
+	if len(o.KeepRedirects) > 0 {
+		keep := map[string]bool{}
+		for _, k := range o.KeepRedirects {
+			keep[k] = true
+		}
+		for k, f := range e.Redirect {
+			if !keep[f.Name()] {
+				delete(e.Redirect, k)
+			}
 		}
 	}
 	budget := 5 * time.Minute
